@@ -22,7 +22,8 @@
    and the structures that are not well-formed documents (their parts contradict each other, the
    format has no place for the distinction): tagged_blocks=None beside a layer info, layer_count=0
    with (empty) lists, opacity/kind without overlay colour, presence flag without parameters. *)
-From PsdV Require Import Base.Prelude Psd.Codec Psd.Model Psd.Proofs Psd.Leaf Psd.LeafProofs Psd.Descriptor Psd.DescriptorProofs Psd.Effects Psd.EffectsProofs.
+From PsdV Require Import Base.Prelude Psd.Codec Psd.Model Psd.Proofs Psd.Leaf Psd.LeafProofs Psd.Descriptor Psd.DescriptorProofs Psd.Effects Psd.EffectsProofs
+  Psd.Patterns Psd.PatternsProofs.
 From Coq Require Import ZArith List Bool Lia.
 Import ListNotations.
 Open Scope Z_scope.
@@ -301,6 +302,43 @@ Proof.
   do 4 eexists. split; [reflexivity|]. split; [vm_compute; reflexivity|]. split; [vm_compute; reflexivity|]. discriminate.
 Qed.
 Print Assumptions effect_record_roundtrip_refuted.
+
+(* ------------------------------------------------------------------ Stage 2: Patterns / Pattern / VirtualMemoryArrayList /
+   VirtualMemoryArray (Psd/Patterns.v): any number of patterns and channels, indexed colour table, the three forms of
+   a virtual memory array (not written / written without data / full record), opaque pixel data *)
+Theorem pattern_roundtrip : forall enc_s dec_s p bs n,
+  wf_pattern enc_s dec_s p = true -> write_pattern enc_s p = Ok (bs, n) -> read_pattern dec_s bs = Ok p.
+Proof. exact pattern_rt. Qed.
+Print Assumptions pattern_roundtrip.
+
+Theorem patterns_roundtrip : forall enc_s dec_s l bs n,
+  forallb (wf_pattern enc_s dec_s) l = true -> write_patterns enc_s l = Ok (bs, n) ->
+  read_patterns dec_s (S (length bs)) bs = Ok l.
+Proof. exact patterns_rt. Qed.
+Print Assumptions patterns_roundtrip.
+
+Theorem virtual_memory_array_list_roundtrip : forall l bs n rest,
+  wf_vmal l = true -> write_vmal l = Ok (bs, n) -> read_vmal (bs ++ rest) = Ok (l, rest).
+Proof. exact vmal_rt. Qed.
+Print Assumptions virtual_memory_array_list_roundtrip.
+
+Example patterns_roundtrip_satisfiable :
+  let p := mkPattern 1 3 (4, -2) [80; 49] [97; 98] None
+             (mkVMAL 3 [0; 0; 4; 4] [VmaSkipped; VmaEmpty 1; VmaFull 1 8 [0; 0; 4; 4] 8 1 [0; 1; 2]]) in
+  wf_pattern raw_codec raw_codec p = true /\ exists bs n, write_patterns raw_codec [p] = Ok (bs, n) /\ n = 104.
+Proof. split; [vm_compute; reflexivity|]. do 2 eexists. split; vm_compute; reflexivity. Qed.
+
+(* a colour table in a non-indexed pattern is written (`if self.color_table`) but only read for INDEXED: the
+   reader then takes the table for the VirtualMemoryArrayList and fails its version check *)
+Theorem pattern_roundtrip_refuted :
+  exists p bs n, pt_mode p = 3 /\ (exists t, pt_table p = Some t /\ length t = 256%nat) /\
+    write_pattern raw_codec p = Ok (bs, n) /\ read_pattern raw_codec bs = Err AssertErr.
+Proof.
+  exists (mkPattern 1 3 (0, 0) [] [] (Some (repeat (1, 2, 3) 256)) (mkVMAL 3 [0; 0; 0; 0] [VmaSkipped; VmaSkipped])).
+  do 2 eexists. split; [reflexivity|]. split; [eexists; split; [reflexivity|reflexivity]|].
+  split; vm_compute; reflexivity.
+Qed.
+Print Assumptions pattern_roundtrip_refuted.
 
 (* back-patching the length = emitting the inner bytes after the packed length *)
 Theorem length_block_backpatch : forall buf lb body,
